@@ -19,7 +19,7 @@ from ..families import secded as fam
 
 MODULE = "secded/Secded"
 CLAUSES = ["NoErrorClean", "SingleCorrected", "SingleFlagged", "DoubleDetected", "DisabledPassThrough",
-           "EncoderAffine", "Coverage"]
+           "DisabledWiring", "DisabledSameWires", "EncoderAffine", "Coverage"]
 ENVCLAUSES = ["EnvLegal"]
 CHUNK_RUNS = 120000          # recorded cases per TLC invocation
 TASK_RUNS = 250              # decoder evaluations per pool task
@@ -96,6 +96,20 @@ def judge(groups, clauses, scratch, timeout=2400):
     return None, st
 
 
+def set_refs(groups):
+    """every enable=0 group names (1-based index into this TLC run's group list) the first enable=0 group
+    of its width that holds all single flips; Secded.tla checks the reference (EnvLegal) and judges the
+    group's outputs against the wires read off it (DisabledSameWires)"""
+    first = {}
+    for i, g in enumerate(groups):
+        if g.get("en") == 0 and g["mode"] in ("all01", "all012") and g["k"] not in first:
+            first[g["k"]] = i + 1
+    for g in groups:
+        if "runs" in g:
+            g["ref"] = first.get(g["k"], 0) if g["en"] == 0 else 0
+    return groups
+
+
 def _describe(g, run):
     return "ECC k=%d (code word %d bits) data=%s enable=%d flipped bits %s -> o=%s sec=%d ded=%d" % (
         g["k"], g["w"], _hexw(g["data"]), g["en"], run[0], _hexw(run[1]), run[2], run[3])
@@ -110,6 +124,21 @@ def _confirm_and_report(report, groups, fail):
     clause = fail["clause"]
     if clause == "Coverage":
         raise MachineryError("the recorded cases do not cover what Secded.tla demands for k=%d (%s)" % (g["k"], g.get("cls")))
+    if clause == "DisabledWiring":
+        # a verdict on a whole enable=0 group (l = 1): all its single flips are re-evaluated
+        k, data = g["k"], fam.word(g["data"])
+        singles = [r for r in g["runs"] if len(r[0]) == 1]
+        cw, runs = fam.eval_runs((k, data, 0, [tuple(r[0]) for r in singles], "ref"))
+        fam._ST.pop((k, "ref"), None)
+        if runs != singles:
+            raise MachineryError("DisabledWiring counterexample not reproduced by the reference evaluator (k=%d)" % k)
+        hit = [r[0][0] for r in singles if r[1] != g["data"]]
+        report.violation({"k": k, "clause": clause, "en": 0, "data": g["data"]},
+                         {"kind": "wiring", "k": k, "data": g["data"], "en": 0, "clause": clause},
+                         "DisabledWiring violated: ECCDecoder(%d) enable=0 data=%s: flipping one code word bit changes "
+                         "the output for %d of the %d positions (%s...), expected: for exactly k=%d positions, each "
+                         "a different output bit" % (k, _hexw(g["data"]), len(hit), g["w"], hit[:12], k))
+        return
     if clause == "EncoderAffine":
         a, b = fam.word(g["a"]), fam.word(g["b"])
         k = g["k"]
@@ -127,8 +156,11 @@ def _confirm_and_report(report, groups, fail):
     if runs[0] != run or fam.ones(cw) != g["cw"]:
         raise MachineryError("case not reproduced by the reference evaluator: " + _describe(g, run))
     sig = {"k": g["k"], "clause": clause, "en": g["en"], "data": g["data"], "flips": run[0]}
-    report.violation(sig, {"kind": "case", "k": g["k"], "data": g["data"], "en": g["en"], "flips": run[0],
-                           "observed": run, "clause": clause},
+    rep = {"kind": "case", "k": g["k"], "data": g["data"], "en": g["en"], "flips": run[0],
+           "observed": run, "clause": clause}
+    if g["en"] == 0 and g.get("ref"):
+        rep["ref_data"] = groups[g["ref"] - 1]["data"]
+    report.violation(sig, rep,
                      "%s violated: %s" % (clause, _describe(g, run)))
 
 
@@ -157,7 +189,10 @@ def record(plan, tier, seed, report, log=print):
                     flips = fam.flip_sets(w, mode)
                 gid = len(groups)
                 groups.append({"k": k, "w": w, "data": fam.ones(data), "en": en, "mode": mode, "cw": None, "runs": [],
-                               "_parts": {}})
+                               "ref": 0, "_parts": {}})
+                if flips == "cwones":          # mode "unit": the driver reads the flip sets off the code word
+                    jobs.append((gid, 0, (k, data, en, flips, "compiled")))
+                    continue
                 for c in range(0, len(flips), TASK_RUNS):
                     jobs.append((gid, c, (k, data, en, flips[c:c + TASK_RUNS], "compiled")))
             if lin:
@@ -222,8 +257,11 @@ def run(prop, report, tier, seed, log=print):
         report.assume("bit 0 of the code word is the overall parity bit (ECCEncoder.o = Cat(parity, codeword)); "
                       "every other position is a data or check bit")
         report.assume("k > 32 (quick: k > 6 partly): all data words are covered through the GF(2)-linearity argument "
-                      "in Secded.tla (all flip sets on data 0, unit vectors, affine encoder), the linear structure "
+                      "in Secded.tla (all flip sets on data 0, unit vectors incl. a single flip that shows their even "
+                      "overall parity and a flip of each of their 1 bits, affine encoder), the linear structure "
                       "itself only probed on random data words")
+        report.assume("enable = 0: 'pass through' is read as wiring - every output bit is one fixed code word bit, the "
+                      "same for every data word (DisabledWiring, DisabledSameWires)")
         plan = tlc_plan(tier, scratch)
         by_k, widths = record(plan, tier, seed, report, log)
         report.add(widths_covered=len(plan), plan={"small": [k for k, c in plan if c == "small"],
@@ -243,6 +281,7 @@ def run(prop, report, tier, seed, log=print):
             chunks.append(cur)
         shown = 0
         for ci, groups in enumerate(chunks):
+            set_refs(groups)
             fail, st = judge(groups, CLAUSES, scratch)
             log("judge chunk %d/%d: %d groups, %d states, TLC %.1fs%s" % (
                 ci + 1, len(chunks), len(groups), st["states"], st["wall"], " -> %s" % fail["clause"] if fail else ""))
@@ -258,14 +297,20 @@ def run(prop, report, tier, seed, log=print):
                         shown += 1
                 continue
             # one failing case per clause of this chunk (TLC stops at the first one it meets)
-            _confirm_and_report(report, groups, fail)
+            # (Coverage last: a broken encoder may also make the demanded cases unreachable, e.g. a
+            # parity bit that is never 1 - the property clauses are judged and reported first)
+            fails = [] if fail["clause"] == "Coverage" else [fail]
             for c in CLAUSES:
-                if c == fail["clause"]:
+                if c == fail["clause"] or c == "Coverage":
                     continue
                 f2, st2 = judge(groups, [c], scratch)
                 report.add(states=st2["states"], transitions=st2["transitions"])
                 if f2 is not None:
-                    _confirm_and_report(report, groups, f2)
+                    fails.append(f2)
+            for f in fails:
+                _confirm_and_report(report, groups, f)
+            if not fails:
+                _confirm_and_report(report, groups, fail)      # Coverage alone: machinery error
             break       # a broken code fails everywhere: the remaining widths add nothing
         report.cov["exhaustive"] = True
     finally:
@@ -284,10 +329,22 @@ def replay(path):
             e = [fam.ones(fam.encode(k, x, "ref")) for x in (a, b, a ^ b, 0)]
             groups = [{"k": k, "mode": "lin", "a": r["a"], "b": r["b"], "c": fam.ones(a ^ b),
                        "ea": e[0], "eb": e[1], "ec": e[2], "e0": e[3]}]
+        elif r["kind"] == "wiring":
+            w = fam.width(k)
+            cw, runs = fam.eval_runs((k, fam.word(r["data"]), 0, fam.flip_sets(w, "all01"), "ref"))
+            groups = [{"k": k, "w": w, "data": r["data"], "en": 0, "mode": "all01", "cw": fam.ones(cw), "runs": runs}]
         else:
+            w = fam.width(k)
+            groups = []
+            if r["en"] == 0:
+                # the group the wires are read off (DisabledSameWires)
+                cw, runs = fam.eval_runs((k, fam.word(r.get("ref_data", [])), 0, fam.flip_sets(w, "all01"), "ref"))
+                groups.append({"k": k, "w": w, "data": r.get("ref_data", []), "en": 0, "mode": "all01",
+                               "cw": fam.ones(cw), "runs": runs})
             cw, runs = fam.eval_runs((k, fam.word(r["data"]), r["en"], [tuple(r["flips"])], "ref"))
-            groups = [{"k": k, "w": fam.width(k), "data": r["data"], "en": r["en"], "mode": "sample",
-                       "cw": fam.ones(cw), "runs": runs}]
+            groups.append({"k": k, "w": w, "data": r["data"], "en": r["en"], "mode": "sample",
+                           "cw": fam.ones(cw), "runs": runs})
+        set_refs(groups)
         try:
             fail, _ = judge(groups, [r["clause"]], scratch)
         except MachineryError as ex:
